@@ -1,12 +1,13 @@
 package main
 
 import (
-	"go/constant"
-	"go/ast"
 	"fmt"
+	"go/ast"
+	"go/constant"
 	"go/token"
 	"go/types"
 	"regexp/syntax"
+	"strconv"
 	"strings"
 
 	"golang.org/x/tools/go/ssa"
@@ -30,7 +31,7 @@ func init() {
 
 // table entries: sites discharged by reading (key -> reason)
 var c12Table = map[string]string{
-	"slice|ngo/internal/slices.Delete":                                        "generic helper: callers pass an index obtained from IndexIsser under idx >= 0 (checked at the call sites below)",
+	"slice|ngo/internal/slices.Delete": "generic helper: callers pass an index obtained from IndexIsser under idx >= 0 (checked at the call sites below)",
 }
 
 func runC12(c *Ctx) {
@@ -315,6 +316,10 @@ func c12IndexSafe(fi *FnInfo, loops []loopRef, in ssa.Instruction, x, idx ssa.Va
 			return true, ""
 		}
 	}
+	// value-based bound proof: 0 <= idx by construction or guard, idx < len(x) by a guard every path passes or a producer contract
+	if idxInRange(fi, in, x, idx) {
+		return true, ""
+	}
 	return false, "index " + desc(idx) + " is not tied to the length of the indexed value"
 }
 
@@ -420,6 +425,30 @@ func c12SliceSafe(fi *FnInfo, sl *ssa.Slice) (bool, string) {
 			}
 		}
 	}
+	// x[k:] (k constant) where x is known to start with a constant of at least k bytes, or len(x) >= k
+	if sl.High == nil && sl.Max == nil && sl.Low != nil {
+		if k, ok := sl.Low.(*ssa.Const); ok && k.Value != nil && k.Value.Kind() == constant.Int {
+			kv, _ := constant.Int64Val(k.Value)
+			for l := range g {
+				for _, f := range []string{"strings.HasPrefix", "strings.HasSuffix", "bytes.HasPrefix", "bytes.HasSuffix"} {
+					pre := "T(call:" + f + "(" + xd + ",const:"
+					if strings.HasPrefix(l, pre) && strings.HasSuffix(l, "))") {
+						if lit, err := strconv.Unquote(l[len(pre) : len(l)-2]); err == nil && int64(len(lit)) >= kv && kv >= 0 {
+							return true, ""
+						}
+					}
+				}
+				for _, op := range []string{"GE", "EQ", "GT"} {
+					pre := op + "(len(" + xd + "),const:"
+					if strings.HasPrefix(l, pre) {
+						if m, ok := parseConstInt("const:" + strings.TrimSuffix(l[len(pre):], ")")); ok && kv >= 0 && (op != "GT" && m >= kv || op == "GT" && m+1 >= kv) {
+							return true, ""
+						}
+					}
+				}
+			}
+		}
+	}
 	return false, "bounds " + desc(sl) + " are not established by a guard; guards: " + summarizeLabels(g, 4)
 }
 
@@ -512,10 +541,82 @@ func c12NilableDerefs(c *Ctx) {
 				c.OK(key, rule2, w.InstrPos(call))
 				continue
 			}
+			if c12CallerEstablishes(w, fn, d, g) {
+				c.OK(key, rule2, w.InstrPos(call))
+				continue
+			}
 			c.Bad(key, rule2, w.InstrPos(call), "call on "+d+" which may be nil (a verifier built without it); guards: "+summarizeLabels(g, 4))
 		}
 	}
 	// 3. interface-typed parameters that receive such fields (revocation validator handed to the timestamp function)
+}
+
+// c12CallerEstablishes: the dereference of receiver field d ("param:<recv>.<field>") sits in an unexported method H, under the local
+// facts g. Every call site of H is in a method of the same receiver, passes that receiver on, and cannot be reached once the
+// edges "<recv>.<field> != nil" and "<recv>.<other> != nil" (for every other field that g knows to be nil inside H) are cut:
+// on every path to the call one of those fields was seen non-nil, inside H the others are nil, so the dereferenced one is not.
+// (The verifier's fields are set by the constructor only; the existing rule relies on the same immutability.)
+func c12CallerEstablishes(w *World, H *ssa.Function, d string, g map[string]string) bool {
+	if H.Signature.Recv() == nil || token.IsExported(H.Name()) || len(H.Params) == 0 {
+		return false
+	}
+	recv := "param:" + H.Params[0].Name()
+	if !strings.HasPrefix(d, recv+".") {
+		return false
+	}
+	fields := []string{strings.TrimPrefix(d, recv)}
+	for l := range g {
+		if strings.HasPrefix(l, "EQ("+recv+".") && strings.HasSuffix(l, ",nil)") {
+			fields = append(fields, strings.TrimSuffix(strings.TrimPrefix(l, "EQ("+recv), ",nil)"))
+		}
+	}
+	sites := 0
+	for _, F := range w.Funcs {
+		for _, b := range F.Blocks {
+			for _, in := range b.Instrs {
+				// H used as a value: call sites unknown
+				if mc, ok := in.(*ssa.MakeClosure); ok && mc.Fn == ssa.Value(H) {
+					return false
+				}
+				call, ok := in.(*ssa.Call)
+				if !ok {
+					if ci, isCall := in.(ssa.CallInstruction); isCall && ci.Common().StaticCallee() == H {
+						return false // go / defer
+					}
+					continue
+				}
+				for _, a := range call.Call.Args {
+					if a == ssa.Value(H) {
+						return false
+					}
+				}
+				if staticCallee(call) != H {
+					continue
+				}
+				sites++
+				if len(F.Params) == 0 || F.Signature.Recv() == nil || len(call.Call.Args) == 0 || call.Call.Args[0] != ssa.Value(F.Params[0]) {
+					return false
+				}
+				if b.Index == 0 {
+					return false
+				}
+				r2 := "param:" + F.Params[0].Name()
+				fi := w.Info(F)
+				cut := fi.edgesMatching(func(l string, _ *ssa.If, _ bool) bool {
+					for _, f := range fields {
+						if l == "NE("+r2+f+",nil)" {
+							return true
+						}
+					}
+					return false
+				})
+				if len(cut) == 0 || fi.reachHit(entryState(), cut, map[int]bool{b.Index: true}) {
+					return false
+				}
+			}
+		}
+	}
+	return sites > 0
 }
 
 // c12OutcomeVerified: at instruction `at`, outcome value O has verified content.
@@ -795,6 +896,59 @@ func c12MapNonNil(fi *FnInfo, mu *ssa.MapUpdate) bool {
 	return false
 }
 
+// c12RangeFuncCheck: the panic is one of the run-time checks the compiler puts around a range-over-func loop (they fire only
+// when the iterator function breaks the iteration protocol), and every iterator ranged over in that function comes from a
+// function outside the module (standard library / dependencies: slices.All, slices.Backward, maps.Keys, …), which keep it.
+func c12RangeFuncCheck(w *World, fn *ssa.Function, p *ssa.Panic) bool {
+	k, ok := unwrap(p.X).(*ssa.Const)
+	if !ok || k.Value == nil || k.Value.Kind() != constant.String {
+		return false
+	}
+	switch constant.StringVal(k.Value) {
+	case "iterator call did not preserve panic", "yield function called after range loop exit":
+	default:
+		return false
+	}
+	root := fn
+	for root.Synthetic == "range-over-func yield" && root.Parent() != nil {
+		root = root.Parent()
+	}
+	found := false
+	var scan func(f *ssa.Function) bool
+	scan = func(f *ssa.Function) bool {
+		for _, ci := range allCalls(f) {
+			for _, a := range ci.Common().Args {
+				mc, ok := a.(*ssa.MakeClosure)
+				if !ok {
+					continue
+				}
+				y, _ := mc.Fn.(*ssa.Function)
+				if y == nil || y.Synthetic != "range-over-func yield" {
+					continue
+				}
+				found = true
+				// the iterator: the value called with the yield function
+				it, ok := ci.Common().Value.(*ssa.Call)
+				if !ok {
+					return false
+				}
+				g := staticCallee(it)
+				if g != nil && g.Origin() != nil {
+					g = g.Origin()
+				}
+				if g == nil || w.IsProductFn(g) || g.Pkg == nil || strings.HasPrefix(g.Pkg.Pkg.Path(), modPath) {
+					return false
+				}
+				if !scan(y) {
+					return false
+				}
+			}
+		}
+		return true
+	}
+	return scan(root) && found
+}
+
 func c12Panics(c *Ctx) {
 	w := c.W
 	n := 0
@@ -802,6 +956,9 @@ func c12Panics(c *Ctx) {
 		for _, b := range fn.Blocks {
 			for _, in := range b.Instrs {
 				if p, ok := in.(*ssa.Panic); ok {
+					if c12RangeFuncCheck(w, fn, p) {
+						continue
+					}
 					n++
 					c.Bad(fmt.Sprintf("explicit-panic/%s#%d", fnName(fn), n), "inventory: no explicit panic in product code", w.InstrPos(p), "panic("+desc(p.X)+")")
 				}
@@ -908,31 +1065,77 @@ func c12Consistency(c *Ctx) {
 
 func c12SizeCaps(c *Ctx) {
 	w := c.W
-	rule := "size cap: content.FetchAll is reachable only through Size <= positive constant on the very descriptor that is fetched (the buffer is allocated from that number)"
+	rule := "size cap: content.FetchAll / content.ReadAll (which allocate descriptor.Size bytes) are reachable only through Size <= positive constant on the very descriptor that is fetched; when the fetch sits in an unexported helper that receives the descriptor, at every call of that helper"
 	n := 0
+	type site struct {
+		fn   *ssa.Function
+		call *ssa.Call
+		d    ssa.Value
+	}
+	var sites []site
 	for _, fn := range w.Funcs {
-		fi := w.Info(fn)
 		for _, ci := range allCalls(fn) {
 			call, ok := ci.(*ssa.Call)
-			if !ok || calleeName(call) != "oras/content.FetchAll" {
+			if !ok {
 				continue
 			}
-			n++
-			c.Evals++
-			d := desc(call.Call.Args[2])
-			g := fi.GuardsOf(call)
-			ok2 := false
-			for l := range g {
-				if strings.HasPrefix(l, "LE("+d+".Size,const:") {
-					var v int64
-					fmt.Sscan(strings.TrimSuffix(strings.TrimPrefix(l, "LE("+d+".Size,const:"), ")"), &v)
-					if v > 0 {
-						ok2 = true
+			switch calleeName(call) {
+			case "oras/content.FetchAll":
+				sites = append(sites, site{fn, call, call.Call.Args[2]})
+			case "oras/content.ReadAll":
+				sites = append(sites, site{fn, call, call.Call.Args[1]})
+			}
+		}
+	}
+	// a sink on a parameter of an unexported helper is an obligation of the helper's callers
+	for depth := 0; depth < 3; depth++ {
+		var next []site
+		for _, st := range sites {
+			pi := -1
+			if p, ok := st.d.(*ssa.Parameter); ok && !token.IsExported(st.fn.Name()) && st.fn.Parent() == nil {
+				for i, q := range st.fn.Params {
+					if q == p {
+						pi = i
 					}
 				}
 			}
-			c.Check(ok2, fmt.Sprintf("size-cap/%s#%d", fnName(fn), n), rule, w.InstrPos(call), "FetchAll("+d+") is not preceded by a cap on "+d+".Size; guards: "+summarizeLabels(g, 5))
+			if pi < 0 {
+				next = append(next, st)
+				continue
+			}
+			found := false
+			for _, F := range w.Funcs {
+				for _, ci := range allCalls(F) {
+					if call, ok := ci.(*ssa.Call); ok && staticCallee(call) == st.fn && len(call.Call.Args) == len(st.fn.Params) {
+						next = append(next, site{F, call, call.Call.Args[pi]})
+						found = true
+					}
+				}
+			}
+			if !found {
+				next = append(next, st)
+			}
 		}
+		sites = next
+	}
+	for _, st := range sites {
+		fn, call := st.fn, st.call
+		fi := w.Info(fn)
+		n++
+		c.Evals++
+		d := desc(st.d)
+		g := fi.GuardsOf(call)
+		ok2 := false
+		for l := range g {
+			if strings.HasPrefix(l, "LE("+d+".Size,const:") {
+				var v int64
+				fmt.Sscan(strings.TrimSuffix(strings.TrimPrefix(l, "LE("+d+".Size,const:"), ")"), &v)
+				if v > 0 {
+					ok2 = true
+				}
+			}
+		}
+		c.Check(ok2, fmt.Sprintf("size-cap/%s#%d", fnName(fn), n), rule, w.InstrPos(call), "the fetch of "+d+" is not preceded by a cap on "+d+".Size; guards: "+summarizeLabels(g, 5))
 	}
 	if n < 2 {
 		c.Unk("size-cap#count", "vacuity guard: the registry package fetches at least a manifest and a blob", "-", fmt.Sprintf("%d found", n))
